@@ -234,11 +234,25 @@ def make_class(spec):
         kw = {}
         d = f.get('default')
         if d is not None:
-            if d[0] == 'value':
-                kw['default'] = d[1]
+            # defaults are stored verbatim by pane (like the standard library): give a *typed* value
+            if f.get('raw_default'):
+                typed = d[1]
             else:
-                proto = d[1]
-                kw['default_factory'] = (lambda proto=proto: _fresh_copy(proto))
+                try:
+                    import warnings as _w
+                    with _w.catch_warnings():
+                        _w.simplefilter('ignore')
+                        typed = pane.from_data(d[1], b.py)
+                except Exception:
+                    raise Unsupported('default value is not a member of the field type')
+            if d[0] == 'value':
+                try:
+                    hash(typed)
+                    kw['default'] = typed
+                except TypeError:
+                    kw['default_factory'] = (lambda proto=typed: _fresh_copy(proto))
+            else:
+                kw['default_factory'] = (lambda proto=typed: _fresh_copy(proto))
         for key in ('aliases', 'in_names', 'rename', 'out_name', 'init', 'exclude', 'kw_only', 'compare', 'hash', 'repr'):
             if key in f and f[key] is not None:
                 kw[key] = f[key]
@@ -347,6 +361,12 @@ def build(term, rng=None) -> Built:
     if k == 'scalar':
         py, coq = SCALARS[term[1]]
         return Built(term, py, f'(TScalar {coq})')
+    if k == 'std':
+        import datetime, decimal, fractions, pathlib, os
+        py = {'decimal': decimal.Decimal, 'fraction': fractions.Fraction, 'datetime': datetime.datetime, 'date': datetime.date,
+              'time': datetime.time, 'path': pathlib.PurePosixPath, 'pathlike': os.PathLike, 'pattern': re.Pattern,
+              'pattern_str': t.Pattern[str], 'pattern_bytes': re.Pattern[bytes]}[term[1]]
+        return Built(term, py, '%NOCOQ%')     # outside the Coq model: monitored on pane only
     if k == 'seq':
         e = build(term[2], rng)
         py = rng.choice(SEQ_SPELL[term[1]])(e.py)
@@ -452,6 +472,8 @@ def verify(term, py):
     elif k == 'scalar':
         if py is not SCALARS[term[1]][0]:
             raise Unsupported('scalar')
+    elif k == 'std':
+        pass
     elif k == 'none':
         if py not in (None, type(None)):
             raise Unsupported('none')
